@@ -14,6 +14,8 @@ pub const HARNESSES: &[(&str, fn())] = &[
     ("c05_parse_3", c05_parse::<3>),
     ("c05_parse_4", c05_parse::<4>),
     ("c05_num_opens", c05_num_opens),
+    ("c05_enum_6", c05_enum::<6>),
+    ("c05_enum_8", c05_enum::<8>),
 ];
 
 /// gene codes: 0 Close, 1 Add (opens 0), 2 When (1), 3 IfElse (2), 4 Unless (1), 5 DupBlock (1), 6 Noop (0)
@@ -201,4 +203,42 @@ pub fn c05_num_opens() {
 #[kani::unwind(4)]
 fn p_c05_num_opens() {
     c05_num_opens()
+}
+
+/// NATIVE exhaustive enumeration (executed by kh-replay on the ordinary toolchain, not by a verifier; CBMC cannot carry
+/// `PushProgram`): every genome of length 0..=N over all seven gene kinds {Close, Add, When, IfElse, Unless, DupBlock,
+/// Noop}, the real conversion against the reference recursive descent
+pub fn c05_enum<const N: usize>() {
+    let mut codes = [0u8; N];
+    let mut len = 0;
+    let mut explored = 0usize;
+    let mut max_shape = 0;
+    while len <= N {
+        let mut total = 1usize;
+        let mut i = 0;
+        while i < len {
+            total *= 7;
+            i += 1;
+        }
+        let mut idx = 0;
+        while idx < total {
+            let mut x = idx;
+            let mut j = 0;
+            while j < len {
+                codes[j] = (x % 7) as u8;
+                x /= 7;
+                j += 1;
+            }
+            context(|| format!("genome (0 Close, 1 Add, 2 When, 3 IfElse, 4 Unless, 5 DupBlock, 6 Noop) = {:?}", &codes[..len]));
+            let n = parse_one::<N>(&codes, len);
+            if n > max_shape {
+                max_shape = n;
+            }
+            explored += 1;
+            idx += 1;
+        }
+        len += 1;
+    }
+    context(String::new);
+    cover!(max_shape >= N && explored > 1, "genomes with blocks explored");
 }
